@@ -667,3 +667,52 @@ def r14_negation_excludes_minimum(ck, P):
                 ck.violation(R, fn, 'negation of %s' % pn, '%s: %s is %s at %s although no test on that path excludes the most negative 16.16 value, whose negation is not representable: the matrix receives -32768.0 where +32768.0 is meant and TRUE is returned' % (fn, pn, how, x.loc()), x.loc())
     if n == 0:
         raise AnalysisBroken('C11-R14: no negation of a parameter in a status-returning function of pixman-matrix.c found')
+
+
+def r15_ceil_guarded(ck, P):
+    """T-GRD: pixman_fixed_ceil (f) is floor (f + 0xffff), formed in 32 bits; it wraps for f > 0x7fff0000.  In the transform code the
+    argument is a transformed coordinate (anything the 16.16 range holds), so the rounding is preceded by a test that excludes those values."""
+    R = ck.rule('C11-R15', 'in pixman-matrix.c every rounding up of a 16.16 value (x + 0xffff in 32 bits, the pixman_fixed_ceil idiom) is dominated by a comparison that keeps x at or below 0x7fff0000: above it the sum wraps to the bottom of the range, and pixman_transform_bounds returned TRUE with a box that misses the corner', floor=2)
+    u = P.units.get(UNIT)
+    if u is None:
+        raise AnalysisBroken('pixman-matrix.c not compiled')
+    n = 0
+    for fn, f in sorted(u.functions.items()):
+        for x in f.insts():
+            if x.op != 'add' or x.ty != 'i32' or not any(a[0] == 'c' and int(a[1]) == 0xffff for a in x.a):
+                continue
+            src = [a for a in x.a if a[0] != 'c']
+            if len(src) != 1:
+                continue
+            n += 1; ck.saw(f)
+            base = f.strip_casts(src[0])
+            ok = False
+            # the value may be re-loaded from the same place: compare by access path as well
+            def same(o):
+                o = f.strip_casts(o)
+                if list(o) == list(base):
+                    return True
+                y, z = f.v(o), f.v(base)
+                return y is not None and z is not None and y.op == 'load' and z.op == 'load' and f.path(y.a[0]) == f.path(z.a[0])
+            for br, succ in f.guard_edges(x.bb.id):
+                if not br.a:
+                    continue
+                cc, pred, ops = f.cond(br.a[0])
+                if cc is None or cc.op != 'icmp' or not any(same(o) for o in ops):
+                    continue
+                k = [int(o[1]) for o in ops if o[0] == 'c']
+                if not k:
+                    continue
+                taken = br.d['succ'][0] == succ
+                p = pred if taken else f.INV.get(pred, pred)
+                if ops[0][0] == 'c':
+                    p = {'slt': 'sgt', 'sgt': 'slt', 'sle': 'sge', 'sge': 'sle'}.get(p, p)
+                if (p == 'sle' and k[0] <= 0x7fff0000) or (p == 'slt' and k[0] <= 0x7fff0001):
+                    ok = True
+            where = '%s: rounding up at %s' % (fn, x.loc())
+            if ok:
+                ck.ok(R, where, 'x <= 0x7fff0000 established')
+            else:
+                ck.violation(R, fn, 'rounding up at %s' % x.loc(), '%s rounds a 16.16 value up by adding 0xffff in 32 bits without a test on the way that keeps the value at or below 0x7fff0000: a transformed coordinate in (32767.0, 32768.0) wraps to -32768.0 and the result is reported as valid' % fn, x.loc())
+    if n == 0:
+        raise AnalysisBroken('C11-R15: no rounding up (x + 0xffff) found in pixman-matrix.c')
